@@ -2,7 +2,7 @@
 """tools/store_seed.py <cNN> <k> <change> <needs> <outcome> — copy a confirmed seeded change from /tmp/seed/cNN-out/k into /verif/seeded/CNN-k/"""
 import json, os, shutil, sys
 p, k, change, needs, outcome = sys.argv[1:6]
-src = os.environ.get('SRC_DIR') or '/tmp/seed/%s-out/%s' % (p, k)
+src = os.environ.get('SRC_DIR') or (os.environ.get('SEED_ROOT') or '/tmp/seed') + '/%s-out/%s' % (p, k)
 # round 2 outputs (again numbered 1, 2 by their authors) are stored as -3, -4: STORE_OFFSET=2
 sid = '%s-%d' % (p.upper(), int(k) + int(os.environ.get('STORE_OFFSET', '0')))
 d = '/verif/seeded/' + sid
